@@ -242,7 +242,7 @@ def gen_case_A(rng, big=False):
         policy[POL[k]] = gen_policy_value(rng, POL[k])
     elif u < 0.94:
         for k in rng.sample(range(3), rng.choice([2, 2, 3])):
-            policy[POL[k]] = gen_policy_value(rng, POL[k])
+            policy[POL[k]] = gen_policy_value(rng, POL[k], zero_ok=0.3)     # 0 dBm is a value like any other
     elif u < 0.97:
         pass
     else:
@@ -300,9 +300,9 @@ def gen_case_L(rng, big=False):
         elp[POL[k2]] = gen_policy_value(rng, POL[k2], zero_ok=0.10)
     elif u < 0.86:
         for k2 in rng.sample(range(3), rng.choice([2, 2, 3])):      # element names several policies
-            elp[POL[k2]] = gen_policy_value(rng, POL[k2])
+            elp[POL[k2]] = gen_policy_value(rng, POL[k2], zero_ok=0.3)
     elif u < 0.91:
-        eqp = {POL[k2]: gen_policy_value(rng, POL[k2]) for k2 in rng.sample(range(3), 2)}   # library names several
+        eqp = {POL[k2]: gen_policy_value(rng, POL[k2], zero_ok=0.3) for k2 in rng.sample(range(3), 2)}   # library names several
     elif u < 0.95:
         eqp = {}                                                    # library names none
         if rng.random() < 0.5:
@@ -832,13 +832,14 @@ def run(ctx):
                 'above and below target, or the loader outcome is a rejection; distinct by content hash')
     cases = []
     if ctx.replay:
-        cases = [json.load(open(ctx.replay))['case']]
+        rec = json.load(open(ctx.replay))
+        cases = [rec.get('case', rec)]          # a replay record, or a bare case (corpus file)
     else:
         for f in sorted(glob.glob(os.path.join(common.VERIF, 'corpus', 'C06', '*.json'))):
             c = json.load(open(f))
             c['_corpus'] = os.path.basename(f)
             cases.append(c)
-        na, nl, nbig = ctx.scale(500, 8000), ctx.scale(400, 6000), ctx.scale(6, 100)
+        na, nl, nbig = ctx.scale(400, 8000), ctx.scale(320, 6000), ctx.scale(5, 100)
         cases += [gen_case_A(rng) for _ in range(na)] + [gen_case_L(rng) for _ in range(nl)]
         cases += [gen_case_A(rng, big=True) for _ in range(nbig)] + [gen_case_L(rng, big=True) for _ in range(nbig)]
     terms, meta = [], []
@@ -888,7 +889,7 @@ def run(ctx):
             if pol:
                 kinds = ['power', 'psd', 'psw']
                 v = view or c
-                perdeg = any(x['deg'] in v['per_degree'].get(PDEG[k], {}) for k in range(3))
+                perdeg = any(x['deg'] in c['per_degree'].get(PDEG[k], {}) for k in range(3))      # configured by the user
                 ctx.count('policy_' + kinds[pol[0]] + ('_per_degree' if perdeg else '_node'))
                 node = next((kinds[k] for k in range(3) if v['policy'].get(POL[k]) is not None), 'none')
                 if perdeg and 'exc' not in rec:
@@ -900,8 +901,15 @@ def run(ctx):
         ctx.case(pub, mixed or obs['stage'] is not None)
         terms.append(term)
         meta.append((c, obs, ids))
-    lines = common.coq_eval('C06', 'Prelude Model.Roadm Run.C06', terms,
-                            per_file=max(12, len(terms) // ctx.scale(48, 160) + 1))
+    tag = f'cases{os.getpid()}'          # private to this process: concurrent runs of this check do not collide
+    try:
+        lines = common.coq_eval('C06', 'Prelude Model.Roadm Run.C06', terms,
+                                per_file=max(12, len(terms) // ctx.scale(48, 160) + 1), tag=tag)
+    finally:
+        wd = os.path.join(common.WORK, 'C06')
+        for f in os.listdir(wd) if os.path.isdir(wd) else []:
+            if f.startswith(tag + '_'):
+                os.unlink(os.path.join(wd, f))
     for (c, obs, ids), line in zip(meta, lines):
         d = compare(c, obs, line, ids)
         if d:
